@@ -168,6 +168,21 @@ class C03(Property):
 
   # ---------------------------------------------------------------- workload
   def gen_workload(self, W, index):
+    if W.chance("marathon", 1, 1500):
+      # the same two or three methods a thousand times over on one endless
+      # stream (the ordinary "peek, then take" loop; copies of copies):
+      # whatever builds up per call shows only after hundreds of calls
+      pattern = W.pick("mpattern", [
+        [["peek", "within", 1, None], ["take", "within", 1, None]],
+        [["copy"], ["take", "within", 2, None]],
+        [["peek", "none", 0, None], ["next_it"]],
+        [["copy"], ["peek", "within", 3, None], ["take", "none", 0, None]]])
+      # (skip / limit / map / filter wrap the data once more per call by
+      # design - a thousand of them nest a thousand iterators in any lazy
+      # implementation - so they are not part of these long histories)
+      return {"roots": [{"kind": W.pick("mroot", ["endless", "periodic"]),
+                         "n": 3}],
+              "ops": pattern * W.pick("mlen", [700, 1300])}
     roots = []
     for _ in range(W.weighted("nroots", [(3, 1), (2, 2)])):
       kind = W.weighted("rkind", [(10, "finite"), (4, "chain"),
